@@ -115,9 +115,9 @@ Lemma A_uri_escapes mk s0 (Q : chr -> sst -> Prop) s :
   TM mk -> G s0 s -> (forall c s', G s0 s' -> Q c s') -> pwp (scan_uri_escapes str_ops mk) Q s.
 Proof using no_nul.
   intros Hmk K HQ. cbv beta delta [scan_uri_escapes].
-  match goal with |- swp _ (?g 5 0%N 0%N true) _ _ =>
-    cut (forall n w cd fs s, G s0 s -> pwp (g n w cd fs) Q s); [intros H; apply H; exact K|] end.
-  clear s K. induction n as [|n IH]; intros w cd fs s K; [exact I|].
+  match goal with |- swp _ (?g 5 0%N 0%N 0%N true) _ _ =>
+    cut (forall n w ln cd fs s, G s0 s -> pwp (g n w ln cd fs) Q s); [intros H; apply H; exact K|] end.
+  clear s K. induction n as [|n IH]; intros w ln cd fs s K; [exact I|].
   cbv beta iota zeta.
   apply swp_bind. eapply A_look; [exact K|]. intros s1 K1 R1.
   apply swp_bind. apply swp_peek. apply swp_bind. apply swp_peekn. apply swp_bind. apply swp_peekn. cbv beta.
